@@ -34,7 +34,12 @@ HARDENING = {
                             "durations in every unit, fractional, at +-2^63 ns and one beyond",
     "2 size thresholds": "11..130 options on one command line; 31..1100 assignments; 16..300 positionals; up to 40 "
                          "response files nested 14 deep; values of 100..30000 bytes; 20..300 digit numbers",
-    "3 entry points": "New(true/false), NewOption, NewGeneralOption (28 pointer types), SetSingle, SetName, SetArg, "
+    "3 entry points": "every declaration route, chosen per option: NewGeneralOption(ptr), NewOption(&GeneralValue{ptr}) "
+                      "(same flag-ness, also for *bool), NewOption(user Value around a GeneralValue: a bool behind it "
+                      "is value-taking, kind wbool), NewOption(logging Value); the CmdLine from New or the one "
+                      "AddCommand/RunCommand hands to a sub-command (also via the built-in help command); setters in "
+                      "both orders, repeated SetSingle/SetName; RunCommand error returns; "
+                      "New(true/false), NewOption, NewGeneralOption (28 pointer types), SetSingle, SetName, SetArg, "
                       "SetDefault, SetUsage, Parse (also twice), FatalMsg, FatalError, FatalIfError(nil / error), "
                       "SetWriter (stdout, failing writer), Write; DisplayUsage + Options.Len/Less/Swap run on the help "
                       "path (exit status and the presence of usage text are observed, not its wording)",
